@@ -122,6 +122,7 @@ type Ghost struct {
 	BrEver     bool   `json:"brEver"`   // a BatchRelease has existed since the release started
 	JumpBack   bool   `json:"jumpBack"` // the user jumped to a lower step index during this release
 	LateChange bool   `json:"lateChange"` // the user changed the template while the rollout was already finalising / cancelling
+	MidSwitch  bool   `json:"midSwitch"`  // the user changed the reason to finalise (rollback, newer revision, delete, disable) while a finalising / reset sequence was under way
 	DisSup     bool   `json:"disSup"`     // the Rollout was disabled / deleted while a newer revision (or a rollback) than the one being released was pending, or vice versa
 	ReadySteps []int  `json:"readySteps"`
 	ReadyRev   string `json:"readyRev"`
@@ -804,6 +805,18 @@ func (w *World) getRollout() *v1beta1.Rollout {
 }
 
 func (w *World) userDo(a string) error {
+	switch {
+	case a == "user.rollback", a == "user.release3", a == "user.delete", a == "user.disable":
+		if ro := w.getRollout(); ro != nil && ro.Status.GetSubStatus() != nil {
+			if f := ro.Status.GetSubStatus().FinalisingStep; f != "" && f != v1beta1.FinalisingStepTypeEnd {
+				w.Ghost.MidSwitch = true
+			}
+		}
+	}
+	return w.userDoInner(a)
+}
+
+func (w *World) userDoInner(a string) error {
 	cls := a
 	if i := strings.Index(a, ":"); i >= 0 {
 		cls = a[:i]
